@@ -321,7 +321,7 @@ Print Assumptions C10_sched_run_no_bad.
 (* a provider call that failed changes neither tree: for the acceptor it is a stutter — faults are invisible in the
    observation trace except as engine actions without effect *)
 Theorem C10_failed_action_is_stutter : forall cfg m s ts,
-  forallb (is_prefix (root_of cfg s)) ts = true -> quiet m = false ->
+  forallb (is_prefix (root_of cfg s)) ts = true -> existsb (has_declined cfg) ts = false -> quiet m = false ->
   (cov_every_step cfg = true -> all_live (cov m) (tL m) (tR m) = true) ->
   mstep cfg m {| o_ev := EEng s ts; o_L := tL m; o_R := tR m |} =
   inl {| tL := tL m; tR := tR m; spec := spec m; cov := cov m; Monitor.steps := Monitor.steps m; quiet := quiet m |}.
